@@ -12,7 +12,7 @@ import PGModel.Basic
 namespace PG
 
 /-- number of fractional bits -/
-def prec : Nat := 200
+def prec : Nat := 160
 
 abbrev FMat := Array (Array Int)
 
@@ -67,11 +67,11 @@ def FMat.norm (a : FMat) : Int :=
 
 def FMat.isZero (a : FMat) : Bool := a.all fun r => r.all (· == 0)
 
-/-- smallest `s` with `x / 2^s ≤ 2^(prec-1)` -/
+/-- smallest `s` with `x / 2^s ≤ 2^(prec-6)` (norm at most 1/64: few Taylor terms) -/
 def halvings (x : Int) : Nat := Id.run do
   let mut s := 0
   let mut y := x
-  while y > (fixOne >>> 1) do
+  while y > (fixOne >>> 6) do
     y := y >>> 1
     s := s + 1
   return s
